@@ -13,6 +13,8 @@ use std::time::Duration;
 
 pub struct Port { rt: tokio::runtime::Runtime, addr: SocketAddr, wrapper: IceSocketWrapper, _reg: Box<dyn std::any::Any + Send>, tx: tokio::net::UdpSocket }
 const UFRAG: &str = "c07ufrag";
+/// bytes one `peers` entry costs (measured 2026-09: see `sharedudpflood:retained_per_source:0` in the evidence) × 1.25
+const REGISTERED_PER_SOURCE_MAX: u64 = 110;     // 1.25 × the measured 85–89 B per source (SocketAddr key + ufrag String + slot) at the flood sizes the harness uses (1500 / 6000; other sizes sit differently in the table's doubling cycle)
 
 fn binding(ufrag: &str, tid: u8) -> Vec<u8> {
     StunMessage { class: StunClass::Request, method: StunMethod::Binding, transaction_id: [tid; 12], attributes: vec![StunAttribute::Username(format!("{ufrag}:peer"))] }.encode(None, false).unwrap()
@@ -80,13 +82,20 @@ pub fn run_flood(run: &mut Run, count: u32, ufrag_len: usize) {
         }
         tokio::time::sleep(Duration::from_millis(30)).await;
     });
+    // what sits in the session's (bounded) channel is not retained by the port: empty it before measuring
+    port.rt.block_on(async { let mut buf = vec![0u8; 2048]; while let Ok(Ok(_)) = tokio::time::timeout(Duration::from_millis(20), port.wrapper.recv_from(&mut buf)).await {} });
     let retained = super::alloc_retained().max(0) as u64;
     run.count_n(&format!("sharedudpflood:retained_per_input_byte_x100:{ufrag_len}"), retained * 100 / bytes_in.max(1));
+    run.count_n(&format!("sharedudpflood:retained_per_source:{ufrag_len}"), retained / count.max(1) as u64);
     if retained > 65_536 + bytes_in / 8 {
-        run.fail(if ufrag_len == 0 { "retain:shared_udp::dispatch:registered-ufrag-per-source" } else { "retain:shared_udp::dispatch:unregistered-ufrag" }, &case, &format!("{retained} bytes retained after {count} Binding requests from distinct sources ({bytes_in} bytes received)"));
+        // the known finding is exactly one `peers` entry per source address: a SocketAddr key, the ufrag String and the table slot.
+        // Anything beyond REGISTERED_PER_SOURCE_MAX bytes per source is a different defect and gets its own signature.
+        let per_source = retained / count.max(1) as u64;
+        let sig = if ufrag_len != 0 { "retain:shared_udp::dispatch:unregistered-ufrag" }
+            else if per_source > REGISTERED_PER_SOURCE_MAX { "retain:shared_udp::dispatch:registered-ufrag:beyond-one-peers-entry-per-source" }
+            else { "retain:shared_udp::dispatch:registered-ufrag-per-source" };
+        run.fail(sig, &case, &format!("{retained} bytes retained ({per_source} per source) after {count} Binding requests from distinct sources ({bytes_in} bytes received)"));
     }
-    // the flood for the registered ufrag sits in the session's (bounded) channel: empty it before probing liveness
-    port.rt.block_on(async { let mut buf = vec![0u8; 2048]; while let Ok(Ok(_)) = tokio::time::timeout(Duration::from_millis(20), port.wrapper.recv_from(&mut buf)).await {} });
     let alive = port.send_and_probe(&[0, 1], 9);
     if !alive { run.fail("dead:shared_udp::recv_loop", &case, "demux task dead after the flood"); }
     run.case("sharedudp", &format!("flood {count} {ufrag_len}"), "noncompared", true);
